@@ -79,6 +79,9 @@ SEL4 = [("none", []), ("array", [3, 0, 2]), ("list", [1, 3]), ("array", [-1, 0, 
 SEL2 = [("none", []), ("array", [1, 0]), ("slice", sl(0, 2, 1)), ("slice", sl(None, None, 2)), ("slice", sl(1, None, None)),
         ("slice", sl(None, None, -1)), ("list", [1])]
 SEL1 = [("none", []), ("slice", sl(None, None, None)), ("array", [0])]
+# fft 8 (exact in Q(zeta_8)); the last five have steps that do not divide the span
+SEL8 = [("none", []), ("array", [5, -1, 0, 3]), ("slice", sl(2, 7, None)), ("slice", sl(None, None, -2)), ("list", [7, 1, 1]),
+        ("slice", sl(0, 8, 3)), ("slice", sl(1, None, 2)), ("slice", sl(7, None, -3)), ("slice", sl(None, None, 5)), ("slice", sl(-7, 6, 4))]
 
 
 def mem_of(prof):
@@ -109,15 +112,18 @@ def time_ops(n1, n2, gen=False):
     return o
 
 
-def freq_ops(mem, rot, count, lin=True):
-    """`count` selections starting at rotation `rot` from the pool of the smallest admissible fft size mix"""
+def freq_ops(mem, rot, count, lin=True, with8=False):
+    """`count` selections starting at rotation `rot` from the pools of the admissible fft sizes"""
     res = []
-    pools = [(4, SEL4)] + ([(2, SEL2)] if mem < 2 else []) + ([(1, SEL1)] if mem < 1 else [])
+    pools = ([(4, SEL4)] if mem < 4 else []) + ([(2, SEL2)] if mem < 2 else []) + ([(1, SEL1)] if mem < 1 else []) + \
+            ([(8, SEL8)] if with8 else [])
     flat = [(f, k, v) for f, pool in pools for k, v in pool]
     for j in range(count):
         f, k, v = flat[(rot + j * 5) % len(flat)]
         nb = 1 + (rot + j) % 2
         s = 1 + (rot + j) % 2
+        if f == 8 and k == "none":
+            nb = 1
         res.append(op("F", s, nb, f, k, v))
         if lin and j == 0:   # the same call with the other two signals: linearity in the frequency domain
             res += [op("F", 3 - s, nb, f, k, v), op("F", 3, nb, f, k, v)]
@@ -145,8 +151,8 @@ def configs_for(tier, seed):
         fams = ants if thorough else [ants[(i + k) % 4] for k in range(2)]
         for j, ant in enumerate(fams):
             ops = time_ops(2 + (i + j) % 2, 4 + (i + j) % 2, gen=(j == 0))
-            if mem < 4:
-                ops += freq_ops(mem, rot + 3 * i + j, 4 if thorough else 3, lin=(j == 0))
+            if mem < 4 or thorough:
+                ops += freq_ops(mem, rot + 3 * i + j, 4 if thorough else 3, lin=(j == 0), with8=thorough)
             if ant != (0, 0) or i % 4 == 0:
                 ops += dirs
             add("tdl", name, ant, ops=ops, variant=i + j, maxpos=mp if ant != (2, 3) or thorough else 10,
@@ -181,6 +187,11 @@ def configs_for(tier, seed):
     add("tdl", "two01", (0, 0), ops=sweep4 + [op("T", 1, 2)], variant=1, maxpos=10)
     add("tdl", "flat", (2, 1), ops=[op("F", 1, 2, 2, k, v) for k, v in SEL2] + [op("F", 2, 3, 1, k, v) for k, v in SEL1] + dirs,
         variant=2, maxpos=6)
+    # fft 8 (exact in Q(zeta_8)): memory-4 profile on SISO, 4 taps on 1x2 with both directions
+    add("tdl", "deep", (0, 0), ops=[op("F", 1 + q % 2, 1, 8, k, v) for q, (k, v) in enumerate(SEL8)] + [op("F", 3, 1, 8, *SEL8[1])],
+        variant=0, maxpos=8, ts="dy")
+    add("tdl", "four", (1, 2), ops=[op("F", 1, 1, 8, *SEL8[1]), op("F", 2, 1, 8, *SEL8[3]), op("F", 1, 1, 8, *SEL8[7]), op("T", 1, 3)] + dirs,
+        variant=4, maxpos=11)
     if thorough:
         # every slice(start, stop, step) over fft 4 with start/stop in {None, -5..5}, step in {None, +-1, +-2, +-3}
         vals = [None, -5, -4, -3, -2, -1, 0, 1, 2, 3, 4, 5]
@@ -333,9 +344,15 @@ def build_channel(c, ctable):
     return multiuser.MuMimoChannel(n_arg, nr, nt, TableGen(ctable), **kw)
 
 
+ZETA8 = np.exp(2j * np.pi * np.arange(4) / 8)
+
+
 def gval(a):
-    """nested lists of GRat triples -> complex ndarray"""
+    """nested lists of exact values -> complex ndarray.  GRat triples <<re, im, den>>, or elements of Q(zeta_8)
+    <<c0, c1, c2, c3, den>> = sum_j c_j exp(2 pi i j / 8) / den (the only trusted numeric step)"""
     a = np.array(a, dtype=float)
+    if a.shape[-1] == 5:
+        return a[..., :4].dot(ZETA8) / a[..., 4]
     return (a[..., 0] + 1j * a[..., 1]) / a[..., 2]
 
 
@@ -708,11 +725,12 @@ def run(ctx):
                 "class after a covering history; distinct = (configuration, state, call) triples")
     ctx.assumptions += ["fading samples come from a table-driven FadingSampleGenerator subclass (public extension point)",
                         "frequency-domain cases keep the channel memory below the fft size (np.fft.fft truncates otherwise: C02)",
-                        "fft sizes 1, 2, 4 (twiddles in Z[i]); half-sample ties only with dyadic sampling intervals",
+                        "exact fft sizes 1, 2, 4 (Gaussian rationals) and 8 (Q(zeta_8), lib/Cyc2); half-sample ties only with dyadic "
+                        "sampling intervals",
                         "tolerance 1e-9 relative"]
     cfgs = configs_for(ctx.tier, ctx.seed)
     tlen = max(c["maxpos"] for c in cfgs)
-    table, signals = tables(ctx.seed, tlen)
+    table, signals = tables(ctx.seed, tlen, maxn=16 if thorough else 8)
     ctable = (table[..., 0] + 1j * table[..., 1]).astype(complex)
     csig = (signals[..., 0] + 1j * signals[..., 1]).astype(complex)
     by_id = {c["id"]: c for c in cfgs}
@@ -750,7 +768,7 @@ def run(ctx):
         ctx.ok(n=okc)
         ctx.trace_done()
         c = job[0]
-        case = {"kind": "path", "cfg": c, "seed": ctx.seed, "tlen": tlen, "path": job[3]}
+        case = {"kind": "path", "cfg": c, "seed": ctx.seed, "tlen": tlen, "maxn": int(signals.shape[-2]), "path": job[3]}
         for f in finds:
             # one hit per distinct failing input (class family, call), however many histories reach it
             sig = (f["id"], c["kind"], c["ant"][0] == 0, graph.key(job[3][f["step"]]["op"]))
@@ -801,7 +819,7 @@ def replay(ctx, data):
         from . import c03_trace
         return c03_trace.replay(ctx, c)
     cfg = c["cfg"]
-    table, signals = tables(c["seed"], c["tlen"])
+    table, signals = tables(c["seed"], c["tlen"], maxn=c.get("maxn", 8))
     ctable = (table[..., 0] + 1j * table[..., 1]).astype(complex)
     csig = (signals[..., 0] + 1j * signals[..., 1]).astype(complex)
     okc, viol, finds = run_path((cfg, ctable, csig, c["path"]))
